@@ -12,6 +12,8 @@ if [ ${#ids[@]} -eq 0 ]; then ids=($(ls seeded)); fi
 missed=0
 for id in "${ids[@]}"; do
   patch=$V/seeded/$id/patch.diff
+  [ -f $V/seeded/$id/patch.head.diff ] && patch=$V/seeded/$id/patch.head.diff   # same change rebased onto a later fix commit
+  prop=${id%%-*}   # seeded/C02-r2 is a second change for property C02
   [ -f "$patch" ] || continue
   wt=$(mktemp -d /var/tmp/verif-selftest-XXXXXX)
   root=$(mktemp -d /var/tmp/verif-selftest-root-XXXXXX)
@@ -22,7 +24,7 @@ for id in "${ids[@]}"; do
   else
     for f in props.json ledger known_findings.json tools bounded bin replays; do ln -s $V/$f $root/$f; done
     mkdir -p $root/evidence $root/replay
-    out=$(VERIF_ROOT=$root bin/govc check $id -repo $wt 2>&1); rc=$?
+    out=$(VERIF_ROOT=$root bin/govc check $prop -repo $wt 2>&1); rc=$?
     nv=$(echo "$out" | grep -c '^VIOLATION')
     if [ $rc -eq 1 ] && [ $nv -gt 0 ]; then
       echo "CAUGHT $id: $(echo "$out" | grep '^VIOLATION' | sed 's|.*replay=[^ ]*/||; s|\.json.*||; s|\.txt.*||' | sort -u | tr '\n' ' ')"
